@@ -387,7 +387,7 @@ class Builtins:
              'implies', 'num_eq', 'same_num', 'is_ascii', 'py_eq', 'is_obj', 'forall_items', 'is_seq', 'keys_of',
              'is_canonical_b64', 'b64_text', 'is_instance_of', 'class_of', 'is_whole', 'realnum', 'is_ok_float',
              'fresh_from', 'is_fresh', 'same_object', 'is_valid_b64', 'b64_bytes', 'mk_enum',
-             'seq_eq', 'is_wire', 'in_universe', 'on_grid', 'same_value', 'enum_owned', 'as_float', 'enum_has_name', 'enum_code', 'enum_has_code', 'enum_name'}
+             'seq_eq', 'is_wire', 'in_universe', 'on_grid', 'same_value', 'enum_owned', 'forall_int', 'forall_str', 'exists_int', 'as_float', 'enum_has_name', 'enum_code', 'enum_has_code', 'enum_name'}
 
     def call(self, it, name, args, kwargs, node):
         m = getattr(self, 'bi_' + name, None)
@@ -427,8 +427,54 @@ class Builtins:
     def bi_same_object(self, it, a, k, n): return SV(V.BoolV(a[0].t == a[1].t))
 
     def bi_is_whole(self, it, a, k, n):
-        x = a[0].t
+        x = it.split_kind(a[0]).t
+        if O.ctor(x) in ('IntV', 'BoolV', 'EnumV'):
+            return SV(const(True))
+        if O.ctor(x) not in (None, 'FloatV'):
+            return SV(const(False))
         return SV(V.BoolV(z3.And(vals.is_finite(x), z3.ToReal(z3.ToInt(num(x))) == num(x))))
+
+    def _forall(self, it, lam, sort, wrap, exists=False):
+        """quantifier over all ints / strings (VC only: loop invariants and lemmas)"""
+        if not (isinstance(lam, PV) and lam.kind == 'lambda'):
+            raise Unsupported('forall_* needs a lambda')
+        q = it.fresh('qv', sort)
+        outcomes = self.world.loops.sub_explore(it, lambda: self.call_closure_with(it, lam, [SV(wrap(q))]))
+        if any(o[0] == 'exc' for o in outcomes):
+            raise Unsupported('quantified body may raise')
+        b = z3.Const('b!qv%d' % it.counter, sort)
+        disj = []
+        for _, v, pcs, fresh in outcomes:
+            fresh = [c for c in fresh if not c.eq(q)]
+            if fresh:
+                raise Unsupported('quantified body introduces fresh values')
+            terms = [z3.substitute(t, (q, b)) for t in pcs + [vals.truthy(v.t)]]
+            disj.append(z3.And(*terms))
+        body = z3.Or(*disj) if disj else z3.BoolVal(False)
+        if exists:
+            return SV(V.BoolV(z3.Exists([b], body)))
+        # the quantifier often has no usable trigger: add its instances at the input terms of that sort
+        insts = []
+        want = 'IntV' if sort == IntS else 'StrV'
+        for t in it.inputs.values():
+            if t.sort() != Val:
+                continue
+            t = it.refine(t)
+            if O.ctor(t) == want:
+                insts.append(z3.substitute(body, (b, t.arg(0))))
+        return SV(V.BoolV(z3.And(z3.ForAll([b], body), *insts)))
+
+    def call_closure_with(self, it, lam, args):
+        return self.world.calls.call_closure(it, lam, args, {})
+
+    def bi_forall_int(self, it, a, k, n):
+        return self._forall(it, a[0], IntS, V.IntV)
+
+    def bi_forall_str(self, it, a, k, n):
+        return self._forall(it, a[0], StrS, V.StrV)
+
+    def bi_exists_int(self, it, a, k, n):
+        return self._forall(it, a[0], IntS, V.IntV, exists=True)
 
     def bi_enum_owned(self, it, a, k, n):
         """the member object belongs to this Enum object"""
@@ -672,8 +718,8 @@ class Builtins:
             x = t.arg(0)
             half = z3.RealVal('1/2')
             d = x - z3.ToReal(nn)
-            it.assume(z3.And(d <= half, d >= -half, z3.Implies(z3.Or(d == half, d == -half), nn % 2 == 0),
-                             z3.Implies(z3.ToReal(z3.ToInt(x)) == x, nn == z3.ToInt(x))))
+            it.assume_axiom(z3.And(d <= half, d >= -half, z3.Implies(z3.Or(d == half, d == -half), nn % 2 == 0),
+                                   z3.Implies(z3.ToReal(z3.ToInt(x)) == x, nn == z3.ToInt(x))))
             return SV(V.IntV(nn))
         return SV(simp(V.IntV(z3.If(V.is_FloatV(t), O.round_half_even(V.r(t)), O.ival(t)))))
 
